@@ -70,6 +70,22 @@ NextTxnCore ==
     \/ ~txn.open /\ (TxnBegin \/ (\E s \in SubIds : Poll(s, 0) \/ Poll(s, 1)))
 SpecTxnCore == PInit /\ [][NextTxnCore]_vars
 
+(* end of stream: what is still unread when the vector is dropped (single updates, a commit of several diffs), *)
+(* polled completely or one item at a time                                                                     *)
+NextEnd ==
+    \/ txn.open /\ (PushBack("t", fresh) \/ TxnCommit)
+    \/ ~txn.open /\ (PushBack("v", fresh) \/ TxnBegin \/ DropVector \/ (\E s \in SubIds, k \in {0, 1} : Poll(s, k)))
+SpecEnd == PInit /\ [][NextEnd]_vars
+
+(* subscriber life cycle around transactions: subscribers dropped (also the last one) while a transaction is open,  *)
+(* the vector dropped with unread messages, commits nobody listens to                                               *)
+NextTxnSubs ==
+    \/ txn.open /\ (PushBack("t", fresh) \/ SetAt("t", 0, fresh, "Set") \/ PopFront("t") \/ Clear("t")
+                    \/ TxnCommit \/ TxnDrop \/ TxnRollback)
+    \/ ~txn.open /\ (TxnBegin \/ PushBack("v", fresh) \/ DropVector \/ (\E k \in {0, 1}, n \in SubIds \ subs : Subscribe(n, k)))
+    \/ \E s \in SubIds : DropSub(s) \/ Poll(s, 0)
+SpecTxnSubs == PInit /\ [][NextTxnSubs]_vars
+
 (* lag and end of stream: a few message-producing calls, a transaction, the drop, polls with every budget *)
 LagOp == PushBack("v", fresh) \/ PopFront("v") \/ SetAt("v", 0, fresh, "Set")
 NextLag ==
